@@ -115,6 +115,16 @@ def run(F, R, tier, M=None):
             R.check("X6", ok, f["name"], F.loc(f), "free function does more than `delete cast(handle)`",
                     key="X6|%s" % f["name"])
 
+    # ---- X5m struct mirrors --------------------------------------------------------
+    R.rule("X5m", "C<->C++ struct conversions pair each field with the same-named field/accessor (same index "
+                  "order, real before imag) and cover every field of the C struct", 60)
+    _check_struct_mirrors(F, R)
+
+    # ---- X3 setter/getter pairing ------------------------------------------------------
+    R.rule("X3", "for every set_<S>/get_<S> pair of the C header the access path written by the setter equals "
+                 "the access path read by the getter (through the C++ accessors down to the field)", 14)
+    _check_pairing(F, R, ext)
+
     # ---- X5e enum mirrors -------------------------------------------------------------
     R.rule("X5e", "C and C++ enumerators that are converted by static_cast have equal values", 6)
     c_en = _enum(F, "gm2calc_THDM_yukawa_type")
@@ -144,12 +154,59 @@ def _peel_casts(n):
         return n
 
 
-def _check_bounded_copy(F, R, f, p):
+def _check_bounded_copy(F, R, f, p, len_ids=None, nonzero=False, depth=0, entry=None):
+    """every write through buffer parameter p of f is bounded by len-1 (interprocedural: the buffer may be
+    handed to a repo helper together with its length)"""
     S = Struct(f)
-    # the unsigned length parameter
-    lens = [q for q in f["params"] if _unq(q["t"]) in ("unsigned int", "unsigned long", "int", "unsigned")]
+    entry = entry or f
+    if len_ids is None:
+        len_ids = [q["id"] for q in f["params"] if _unq(q["t"]) in ("unsigned int", "unsigned long", "int", "unsigned")]
     uses = _uses(f["body"], p["id"])
     writes = 0
+    inst0 = "%s(%s)" % (entry["name"], p["name"]) + ("" if entry is f else " via " + f["name"])
+
+    def guarded_nonzero(node):
+        if nonzero:
+            return True
+        for g in S.guards(node):
+            if g[0] == "switch":
+                continue
+            cond, pol = g
+            if pol is False and any(_cond_has_zero_test(cond, L) for L in len_ids):
+                return True
+        return False
+
+    def bound(e, node):
+        """'idx' if e <= len-1, 'cnt' if e <= len, 'over' if e can exceed, None if unknown"""
+        e = strip_all(e)
+        k = e.get("k")
+        if k == "BinaryOperator" and e.get("op") == "-":
+            a, b = strip_all(e["c"][0]), strip_all(e["c"][1])
+            if b.get("k") == "IntegerLiteral" and b.get("v") == "1" and a.get("k") == "DeclRefExpr" and a.get("id") in len_ids:
+                return "idx" if guarded_nonzero(node) else "wrap"
+        if k == "DeclRefExpr" and e.get("id") in len_ids:
+            return "cnt"
+        if k == "DeclRefExpr" and e.get("rk") == "Var":
+            for n in walk(f["body"]):
+                if n.get("k") == "DeclStmt":
+                    for d in n["decls"]:
+                        if d.get("id") == e["id"] and d.get("init") is not None and d.get("const"):
+                            return bound(d["init"], node)
+            return None
+        if is_call(e) and re.match(r"^std::min$", e.get("fn") or ""):
+            bs = [bound(a, node) for a in call_args(e)]
+            for want in ("idx", "wrap", "cnt"):
+                if want in bs:
+                    return want
+            return None
+        if is_call(e) and (e.get("fn") or "").endswith("basic_string<char>::copy"):
+            args = call_args(e)
+            if _ref_id(args[0]) == p["id"]:
+                return bound(args[1], node)
+        if k in ("CXXStaticCastExpr", "CXXFunctionalCastExpr", "CStyleCastExpr"):
+            return bound(e["c"][0], node)
+        return None
+
     for u in uses:
         par = S.parent(u)
         while par is not None and par.get("k") in ("ImplicitCastExpr", "ParenExpr"):
@@ -157,46 +214,59 @@ def _check_bounded_copy(F, R, f, p):
         k = par.get("k")
         if k == "BinaryOperator" and par.get("op") in ("==", "!="):
             continue   # null test
-        inst = "%s(%s)" % (f["name"], p["name"])
         if is_call(par) and (par.get("fn") or "").endswith("basic_string<char>::copy"):
             writes += 1
             args = call_args(par)
-            cnt = strip_all(args[1]) if len(args) > 1 else None
-            L = None
-            ok_shape = False
-            if cnt is not None and cnt.get("k") == "BinaryOperator" and cnt.get("op") == "-":
-                a, b = strip_all(cnt["c"][0]), strip_all(cnt["c"][1])
-                if b.get("k") == "IntegerLiteral" and b.get("v") == "1" and a.get("k") == "DeclRefExpr" and \
-                        a.get("id") in [q["id"] for q in lens]:
-                    ok_shape = True
-                    L = a["id"]
-            if not ok_shape:
-                R.fail("X2", inst, F.loc(f, par), "copy count is not `len - 1` of the length parameter",
-                       key="X2|%s|count" % f["name"])
-                continue
-            # len == 0 guard dominating the copy
-            guarded = False
-            for cond, pol in [g for g in S.guards(par) if g[0] != "switch"]:
-                if pol is False and _cond_has_zero_test(cond, L):
-                    guarded = True
-            R.check("X2", guarded, inst + " copy(len-1)", F.loc(f, par),
-                    "`len - 1` wraps around for len == 0: no dominating `len == 0` early return",
-                    key="X2|%s|len0" % f["name"])
+            b = bound(args[1], par) if len(args) > 1 else None
+            if b == "wrap":
+                R.fail("X2", inst0 + " copy(len-1)", F.loc(f, par),
+                       "`len - 1` wraps around for len == 0: no dominating `len == 0` early return",
+                       key="X2|%s|len0" % entry["name"])
+            elif b in ("idx", "cnt"):
+                R.ok("X2", inst0 + " copy count <= len", F.loc(f, par))
+            else:
+                R.fail("X2", inst0, F.loc(f, par), "copy count is not bounded by the length parameter",
+                       key="X2|%s|count" % entry["name"])
             continue
         if k == "ArraySubscriptExpr":
             writes += 1
-            idx = strip_all(par["c"][1])
-            ok = is_call(idx) and (idx.get("fn") or "").endswith("basic_string<char>::copy") and \
-                _ref_id(call_args(idx)[0]) == p["id"]
-            R.check("X2", ok, inst + " terminator", F.loc(f, par),
-                    "index of the terminating write is not the bounded copy's return value",
-                    key="X2|%s|index" % f["name"])
+            b = bound(par["c"][1], par)
+            if b == "idx":
+                R.ok("X2", inst0 + " terminator index <= len-1", F.loc(f, par))
+            elif b == "wrap":
+                R.fail("X2", inst0 + " terminator", F.loc(f, par), "`len - 1` wraps around for len == 0",
+                       key="X2|%s|len0" % entry["name"])
+            elif b == "cnt":
+                R.fail("X2", inst0 + " terminator", F.loc(f, par), "index of the terminating write can equal len: "
+                       "one byte beyond the given length", key="X2|%s|index" % entry["name"])
+            else:
+                R.fail("X2", inst0 + " terminator", F.loc(f, par),
+                       "index of the terminating write is not bounded by len-1",
+                       key="X2|%s|index" % entry["name"])
             continue
-        if is_call(par) and (par.get("fn") in ("strcpy", "strcat", "sprintf", "memcpy", "strncpy", "std::strcpy",
-                                               "std::memcpy", "std::copy")):
-            R.fail("X2", inst, F.loc(f, par), "unbounded/unchecked write via %s" % par.get("fn"),
-                   key="X2|%s|%s" % (f["name"], par.get("fn")))
+        if is_call(par) and par.get("fn") in ("memcpy", "std::memcpy", "strncpy", "std::strncpy", "memmove", "std::memmove"):
+            writes += 1
+            args = call_args(par)
+            b = bound(args[2], par) if len(args) > 2 else None
+            R.check("X2", b in ("idx", "cnt"), inst0 + " %s count <= len" % par["fn"], F.loc(f, par),
+                    "%s count is not bounded by the length parameter" % par["fn"],
+                    key="X2|%s|%s" % (entry["name"], par["fn"]))
             continue
+        if is_call(par) and (par.get("fn") in ("strcpy", "strcat", "sprintf", "std::strcpy", "std::copy", "gets")):
+            writes += 1
+            R.fail("X2", inst0, F.loc(f, par), "unbounded write via %s" % par.get("fn"),
+                   key="X2|%s|%s" % (entry["name"], par.get("fn")))
+            continue
+        if is_call(par) and par.get("mg") in F.functions and depth < 3:
+            g = F.functions[par["mg"]]
+            args = call_args(par)
+            pos = [i for i, a in enumerate(args) if _ref_id(a) == p["id"]]
+            lens = [i for i, a in enumerate(args) if _ref_id(a) in len_ids]
+            if pos and lens and len(g["params"]) == len(args):
+                writes += 1
+                _check_bounded_copy(F, R, g, g["params"][pos[0]], [g["params"][i]["id"] for i in lens],
+                                    guarded_nonzero(par), depth + 1, entry)
+                continue
         R.broken("X2: unrecognised use of caller buffer %s in %s at line %s (%s)" % (p["name"], f["name"],
                                                                                       par.get("l"), k))
     if writes == 0:
@@ -371,3 +441,320 @@ def _check_error_mapping(F, R, M, f):
                 R.check("X5h", first == doc, "%s raises %s" % (name, ty), F.loc(f, t),
                         "%s thrown in the try body is first caught by catch(%s), not by catch(%s)" % (ty, first, doc),
                         key="X5h|%s|complete|%s" % (name, doc))
+
+
+# ---------------------------------------------------------------------------
+MIRROR_FUNCS = {
+    "gm2calc::(anonymous namespace)::convert_to_config": "gm2calc_THDM_config",
+    "gm2calc::(anonymous namespace)::convert_to_SM": "gm2calc_SM",
+    "gm2calc::(anonymous namespace)::convert_to_basis": None,   # both overloads: struct from the parameter
+    "gm2calc_sm_set_to_default": "gm2calc_SM",
+    "gm2calc_thdm_config_set_to_default": "gm2calc_THDM_config",
+}
+
+
+def _norm_name(n):
+    n = re.sub(r"^(set_|get_)", "", n)
+    return n
+
+
+def _side_names(e, cparam_id):
+    """(C-side field accesses [(name, index exprs, role)], C++-side names [(name, index exprs)]) in e"""
+    from .render import Renderer
+    Rr = Renderer(None, resolve_locals=False)
+    cside, cppside = [], []
+
+    def idx_of_subscripts(n):
+        # n is the MemberExpr on the C struct; climb is done by the caller
+        return []
+    # walk with parent tracking for subscripts
+    stack = [(e, [], None)]
+    while stack:
+        n, subs, role = stack.pop()
+        n = strip_all(n)
+        if n is None:
+            continue
+        k = n.get("k")
+        if k == "ArraySubscriptExpr":
+            stack.append((n["c"][0], [Rr.r(n["c"][1])] + subs, role))
+            for x in walk(n["c"][1]):
+                pass
+            continue
+        if k == "MemberExpr" and n.get("mk") == "Field":
+            base = strip_all(n["c"][0]) if n.get("c") else None
+            if base is not None and base.get("k") == "DeclRefExpr" and base.get("id") == cparam_id:
+                cside.append((n["sn"], subs, role))
+                continue
+            if base is not None and base.get("k") == "DeclRefExpr":
+                cppside.append((n["sn"], subs))
+                continue
+        if is_call(n):
+            fn = n.get("fn") or ""
+            short = fn.split("::")[-1]
+            if n.get("k") == "CXXMemberCallExpr":
+                args = [Rr.r(a) for a in call_args(n)]
+                # setter: index args precede the value; getter: all args are indices
+                if short.startswith("set_"):
+                    cppside.append((short, args[:-1]))
+                    stack.append((call_args(n)[-1], [], role))
+                    continue
+                if short.startswith("get_"):
+                    cppside.append((short, args))
+                    continue
+            if n.get("k") == "CXXOperatorCallExpr" and n.get("op") == "()":
+                tgt = strip_all(n["c"][1])
+                if tgt.get("k") in ("MemberExpr", "DeclRefExpr"):
+                    nm = tgt.get("sn") or (tgt.get("n") or "").split("::")[-1]
+                    cppside.append((nm, [Rr.r(a) for a in n["c"][2:]]))
+                    continue
+            if short in ("real", "imag"):
+                for a in call_args(n):
+                    stack.append((a, [], short))
+                continue
+            if re.search(r"complex<double>::complex$", fn) and len(call_args(n)) == 2:
+                a, b = call_args(n)
+                stack.append((a, [], "real"))
+                stack.append((b, [], "imag"))
+                continue
+        for c in kids(n):
+            stack.append((c, [], role))
+    return cside, cppside
+
+
+def _check_struct_mirrors(F, R):
+    for fname, struct in MIRROR_FUNCS.items():
+        for f in F.fns(fname):
+            cp = [p for p in f["params"] if p.get("ptr")]
+            if len(cp) != 1:
+                R.broken("X5m: %s: expected one struct pointer parameter" % fname)
+            cparam = cp[0]
+            sname = struct or re.sub(r"^const |\s*\*$", "", cparam["t"]).strip()
+            rec = F.records.get(sname)
+            if rec is None:
+                R.broken("X5m: C struct %s not found" % sname)
+            fields = [fl["name"] for fl in rec["fields"]]
+            covered = set()
+            # local aliases: a C++ local filled element-wise then handed to a setter (ckm)
+            for n in walk(f["body"]):
+                is_asg = n.get("k") == "BinaryOperator" and n.get("op") == "="
+                is_casg = n.get("k") == "CXXOperatorCallExpr" and n.get("op") == "="
+                is_set = n.get("k") == "CXXMemberCallExpr" and (n.get("fn") or "").split("::")[-1].startswith("set_")
+                if not (is_asg or is_casg or is_set):
+                    continue
+                if is_set:
+                    cside, cppside = _side_names(n, cparam["id"])
+                    lhs_c = []
+                else:
+                    ops = n["c"] if is_asg else n["c"][1:]
+                    lc, lcpp = _side_names(ops[0], cparam["id"])
+                    rc, rcpp = _side_names(ops[1], cparam["id"])
+                    r0 = strip_all(ops[1])
+                    if is_call(r0) and (r0.get("fn") or "").split("::")[-1] in ("real", "imag"):
+                        lc = [(a, b, (r0["fn"].split("::")[-1]) if c is None else c) for a, b, c in lc]
+                    cside, cppside = lc + rc, lcpp + rcpp
+                if not cside:
+                    continue
+                for cn, cidx, role in cside:
+                    covered.add(cn)
+                    base = re.sub(r"_(real|imag)$", "", cn)
+                    want_role = re.search(r"_(real|imag)$", cn)
+                    match = [x for x in cppside if _norm_name(x[0]) == base]
+                    inst = "%s: %s%s <-> %s" % (f["name"].split("::")[-1], cn, "".join("[%s]" % i for i in cidx),
+                                                ", ".join("%s(%s)" % (x[0], ",".join(x[1])) for x in cppside) or "-")
+                    where = F.loc(f, n)
+                    if not match:
+                        R.fail("X5m", inst, where, "C field %s is paired with a differently named C++ member (%s)" % (
+                            cn, ", ".join(x[0] for x in cppside) or "none"), key="X5m|%s|%s|name" % (f["name"], cn))
+                        continue
+                    if match[0][1] != cidx:
+                        R.fail("X5m", inst, where, "index order differs: C [%s] vs C++ (%s)" % (
+                            ",".join(cidx), ",".join(match[0][1])), key="X5m|%s|%s|index" % (f["name"], cn))
+                        continue
+                    if want_role and role != want_role.group(1):
+                        R.fail("X5m", inst, where, "%s is used as the %s part" % (cn, role),
+                               key="X5m|%s|%s|part" % (f["name"], cn))
+                        continue
+                    R.ok("X5m", inst, where)
+            missing = [x for x in fields if x not in covered]
+            R.check("X5m", not missing, "%s(%s) covers all %d fields of %s" % (f["name"].split("::")[-1],
+                    (cparam["t"] or "")[:40], len(fields), sname), F.loc(f),
+                    "fields of %s not converted: %s" % (sname, ", ".join(missing)),
+                    key="X5m|%s|%s|complete" % (f["name"], sname))
+
+
+# frozen reviewed exceptions of X3 (C setter/getter pairs whose round trip is not an access-path identity)
+X3_EXCEPTIONS = {
+    "TB": "set_TB distributes tan(beta) over vd, vu at fixed v (vd = v cos b, vu = v sin b); get_TB returns vu/vd: "
+          "checked structurally: the setter writes exactly {vd, vu} and the getter reads exactly {vd, vu}",
+}
+
+
+def _access_path(F, f, e, env, depth=0):
+    """symbolic location denoted by lvalue/rvalue expression e inside f: (field names..., index terms...)"""
+    from .render import Renderer
+    e = strip_all(e)
+    if e is None or depth > 6:
+        return None
+    k = e.get("k")
+    if k == "MemberExpr" and e.get("mk") == "Field":
+        base = _access_path(F, f, e["c"][0], env, depth + 1) if e.get("c") else ()
+        if base is None:
+            return None
+        return base + (e["n"].split("::")[-1],)
+    if k == "CXXThisExpr":
+        return ()
+    if k in ("CXXReinterpretCastExpr", "CXXStaticCastExpr"):
+        return _access_path(F, f, e["c"][0], env, depth + 1)
+    if k == "DeclRefExpr":
+        if e.get("id") in env:
+            return env[e["id"]]
+        if e.get("rk") == "Param":
+            return ()
+        return None
+    if k == "UnaryOperator" and e.get("op") == "*":
+        return _access_path(F, f, e["c"][0], env, depth + 1)
+    if k == "CXXOperatorCallExpr" and e.get("op") in ("()", "[]"):
+        base = _access_path(F, f, e["c"][1], env, depth + 1)
+        if base is None:
+            return None
+        idx = []
+        for a in e["c"][2:]:
+            a0 = strip_all(a)
+            if a0.get("k") == "DeclRefExpr" and a0.get("id") in env:
+                idx.append(env[a0["id"]])
+            elif a0.get("k") == "IntegerLiteral":
+                idx.append(("lit", a0["v"]))
+            elif "iv" in a0:
+                idx.append(("lit", a0["iv"]))
+            else:
+                return None
+        return base + (("idx",) + tuple(idx),)
+    if k == "CXXMemberCallExpr" and e.get("mg") in F.functions:
+        g = F.functions[e["mg"]]
+        obj = call_object(e)
+        base = _access_path(F, f, obj, env, depth + 1) if obj is not None else ()
+        if base is None:
+            return None
+        genv = {}
+        for p, a in zip(g["params"], call_args(e)):
+            a0 = strip_all(a)
+            if a0.get("k") == "DeclRefExpr" and a0.get("id") in env:
+                genv[p["id"]] = env[a0["id"]]
+            elif a0.get("k") == "IntegerLiteral":
+                genv[p["id"]] = ("lit", a0["v"])
+            else:
+                genv[p["id"]] = ("expr",)
+        body = g["body"].get("c", [])
+        if len(body) == 1 and body[0].get("k") == "ReturnStmt" and body[0].get("c"):
+            sub = _access_path(F, g, body[0]["c"][0], genv, depth + 1)
+            if sub is None:
+                return None
+            return base + sub
+        return None
+    return None
+
+
+def _setter_effect(F, f, env, depth=0):
+    """[(written access path, value term)] of a straight-line setter body"""
+    out = []
+    for st in f["body"].get("c", []):
+        st0 = strip_all(st)
+        k = st0.get("k")
+        if k in ("BinaryOperator",) and st0.get("op") == "=":
+            path = _access_path(F, f, st0["c"][0], env)
+            v = strip_all(st0["c"][1])
+            val = env.get(v.get("id")) if v.get("k") == "DeclRefExpr" else None
+            if val is None and v.get("k") == "BinaryOperator" and v.get("op") == "!=":
+                l = strip_all(v["c"][0])
+                if l.get("k") == "DeclRefExpr" and l.get("id") in env:
+                    val = env[l["id"]]
+            out.append((path, val))
+        elif k == "CXXOperatorCallExpr" and st0.get("op") == "=":
+            path = _access_path(F, f, st0["c"][1], env)
+            v = strip_all(st0["c"][2])
+            out.append((path, env.get(v.get("id")) if v.get("k") == "DeclRefExpr" else None))
+        elif k == "CXXMemberCallExpr" and st0.get("mg") in F.functions and depth < 4:
+            g = F.functions[st0["mg"]]
+            obj = call_object(st0)
+            base = _access_path(F, f, obj, env) if obj is not None else ()
+            genv = {}
+            for p, a in zip(g["params"], call_args(st0)):
+                a0 = strip_all(a)
+                if a0.get("k") == "DeclRefExpr" and a0.get("id") in env:
+                    genv[p["id"]] = env[a0["id"]]
+                elif a0.get("k") == "BinaryOperator" and a0.get("op") == "!=" and \
+                        strip_all(a0["c"][0]).get("id") in env:
+                    genv[p["id"]] = env[strip_all(a0["c"][0])["id"]]
+                else:
+                    genv[p["id"]] = None
+            for path, val in _setter_effect(F, g, genv, depth + 1):
+                out.append(((base or ()) + path if path is not None and base is not None else None, val))
+        else:
+            out.append((None, None))
+    return out
+
+
+def _fields_in(F, f, root=None, seen=None):
+    """all field names read/written in f and its repo callees"""
+    seen = seen if seen is not None else set()
+    key = f["mg"] or f["name"]
+    if key in seen:
+        return set()
+    seen.add(key)
+    out = set()
+    for n in walk(f["body"]):
+        if n.get("k") == "MemberExpr" and n.get("mk") == "Field":
+            out.add(n["sn"])
+        if is_call(n) and n.get("mg") in F.functions:
+            out |= _fields_in(F, F.functions[n["mg"]], None, seen)
+    return out
+
+
+def _check_pairing(F, R, ext):
+    setters = {}
+    getters = {}
+    for k, f in ext.items():
+        m = re.match(r"^gm2calc_mssmnofv_(set|get)_(\w+)$", f["name"])
+        if m:
+            (setters if m.group(1) == "set" else getters)[m.group(2)] = f
+    for stem in sorted(set(setters) & set(getters)):
+        sf, gf = setters[stem], getters[stem]
+        where = F.loc(sf)
+        # parameters: handle, indices..., value
+        senv = {}
+        for i, p in enumerate(sf["params"][1:-1]):
+            senv[p["id"]] = ("index", i)
+        senv[sf["params"][-1]["id"]] = ("value",)
+        genv = {}
+        for i, p in enumerate(gf["params"][1:]):
+            genv[p["id"]] = ("index", i)
+        eff = _setter_effect(F, sf, senv)
+        # getter: return path
+        rets = [n for n in walk(gf["body"]) if n.get("k") == "ReturnStmt" and n.get("c")]
+        gpath = None
+        for r in rets:
+            e = strip_all(r["c"][0])
+            if e.get("k") == "DeclRefExpr" and e.get("rk") == "Var":
+                # value assigned inside try
+                for n in walk(gf["body"]):
+                    if n.get("k") == "BinaryOperator" and n.get("op") == "=" and strip_all(n["c"][0]).get("id") == e["id"]:
+                        gpath = _access_path(F, gf, n["c"][1], genv)
+            else:
+                gpath = _access_path(F, gf, r["c"][0], genv)
+        simple = len(eff) == 1 and eff[0][0] is not None and eff[0][1] == ("value",)
+        if stem in X3_EXCEPTIONS:
+            # structural part of the frozen reason: same field set on both sides
+            cs = F.functions.get(next((c["mg"] for c in F.calls[sf["mg"]] if c.get("mg") in F.functions), None))
+            cg = F.functions.get(next((c["mg"] for c in F.calls[gf["mg"]] if c.get("mg") in F.functions), None))
+            ws = {p[-1] if isinstance(p[-1], str) else p[-2] for p, v in _setter_effect(F, sf, senv) if p}
+            rs = _fields_in(F, cg) if cg else set()
+            R.check("X3", ws == {"vd", "vu"} and {"vd", "vu"} <= rs, "%s [frozen: %s]" % (stem, X3_EXCEPTIONS[stem][:60]),
+                    where, "set_%s writes %s, get_%s reads %s" % (stem, sorted(ws), stem, sorted(rs)),
+                    key="X3|%s|exception" % stem)
+            continue
+        if not simple or gpath is None:
+            R.fail("X3", stem, where, "setter/getter are not plain accessors of one location (setter effect %s, "
+                   "getter path %s) and the pair is not a reviewed exception" % (eff, gpath), key="X3|%s|shape" % stem)
+            continue
+        R.check("X3", eff[0][0] == gpath, "%s: %s" % (stem, "/".join(str(x) for x in gpath)), where,
+                "setter writes %s but getter reads %s" % (eff[0][0], gpath), key="X3|%s|path" % stem)
